@@ -124,7 +124,8 @@ fn extra_inputs() -> Vec<Input> {
 }
 
 fn inputs(tier: &str) -> Vec<Input> {
-    let mut v = large_inputs(tier);
+    // the polynomial oracles are cubic: graphs up to 130 nodes
+    let mut v: Vec<Input> = large_inputs(tier).into_iter().filter(|i| i.g.number_of_nodes() <= 130).collect();
     v.extend(extra_inputs());
     v
 }
